@@ -59,6 +59,16 @@ pub fn is_finite(number: &FeelNumber) -> bool {
   *number - *number == FeelNumber::zero()
 }
 
+/// Returns the number as a value, or `null` when the number is an infinity or a NaN,
+/// what happens when the result (or an intermediate result) of a calculation is out of range.
+fn finite_or_null(number: FeelNumber, function_name: &str) -> Value {
+  if is_finite(&number) {
+    Value::Number(number)
+  } else {
+    value_null!("[core::{}] the result is out of range", function_name)
+  }
+}
+
 /// Returns the absolute value of the argument.
 pub fn abs(value: &Value) -> Value {
   if let Value::Number(v) = value {
@@ -596,7 +606,7 @@ pub fn mean(values: &[Value]) -> Value {
       return invalid_argument_type!("mean", "number", value.type_of());
     }
   }
-  Value::Number(sum / values.len().into())
+  finite_or_null(sum / values.len().into(), "mean")
 }
 
 /// Returns the median of numbers.
@@ -619,7 +629,7 @@ pub fn median(values: &[Value]) -> Value {
   list.sort_by(|x, y| x.partial_cmp(y).unwrap_or(std::cmp::Ordering::Equal));
   let index = values.len() / 2;
   if list.len() % 2 == 0 {
-    Value::Number((list[index - 1] + list[index]) / FeelNumber::two())
+    finite_or_null((list[index - 1] + list[index]) / FeelNumber::two(), "median")
   } else {
     Value::Number(list[index])
   }
@@ -1037,7 +1047,7 @@ pub fn stddev(values: &[Value]) -> Value {
     }
   }
   if let Some(stddev) = (sum2 / (n - FeelNumber::one())).sqrt() {
-    Value::Number(stddev)
+    finite_or_null(stddev, "stddev")
   } else {
     value_null!("stddev")
   }
@@ -1075,7 +1085,7 @@ pub fn sum(values: &[Value]) -> Value {
         return invalid_argument_type!("sum", "number", value.type_of());
       }
     }
-    Value::Number(sum)
+    finite_or_null(sum, "sum")
   } else {
     invalid_argument_type!("sum", "number", values[0].type_of())
   }
